@@ -161,16 +161,17 @@ Section Effect.
     end.
 
   (* ---- C16: the two states ---------------------------------------------------------- *)
+  (* every inode that existed is unchanged *)
+  Definition keeps (b a : fs) : Prop := forall i nd, ilook b i = Some nd -> ilook a i = Some nd.
+
   (* the operand still names the same object and that object is unchanged *)
   Definition input_intact (b a : fs) (op : path) : Prop :=
-    nlook a op = nlook b op /\
-    forall i, nlook b op = Some (DLink i) -> ilook a i = ilook b i.
+    nlook a op = nlook b op /\ keeps b a.
 
   (* no output file remains: the output name is free, or still holds what was
      there before the operand was started (an operand skipped without -f) *)
   Definition output_absent (b a : fs) (q : path) : Prop :=
-    nlook a q = None \/
-    (nlook a q = nlook b q /\ forall i, nlook b q = Some (DLink i) -> ilook a i = ilook b i).
+    nlook a q = None \/ nlook a q = nlook b q.
 
   Definition writes_of (evs : list ioev) : bytes :=
     List.concat (map (fun e => match e with IoWrite c => c | IoRead => [] end) evs).
@@ -183,20 +184,20 @@ Section Effect.
     else if c_ok (codec CCompress d) then Some (writes_of (c_io (codec CCompress d))) else None.
 
   (* the output name holds a regular file with the complete output, written
-     through a descriptor whose close() succeeded *)
+     through a descriptor whose close() succeeded; all older inodes are unchanged *)
   Definition output_complete_closed (b a : fs) (op q : path) : Prop :=
     exists iin ndin j nd,
       nlook b op = Some (DLink iin) /\ ilook b iin = Some ndin /\
-      nlook a q = Some (DLink j) /\ ilook a j = Some nd /\
+      nlook a q = Some (DLink j) /\ ilook a j = Some nd /\ ilook b j = None /\
       i_kind nd = KReg /\ i_committed nd = true /\
-      expected_output (i_data ndin) = Some (i_data nd).
+      expected_output (i_data ndin) = Some (i_data nd) /\ keeps b a.
 
   Definition input_present (a : fs) (op : path) : Prop := nlook a op <> None.
 
   Definition first_state (b a : fs) (op : path) : Prop :=
     match out_name (c_decompress cf) op with
     | Some q => input_intact b a op /\ output_absent b a q
-    | None => a = b
+    | None => input_intact b a op
     end.
 
   Definition second_state (b a : fs) (op : path) (rmfail : bool) : Prop :=
@@ -207,10 +208,12 @@ Section Effect.
     end.
 
   (* Writing to stdout or discarding (-c, -t) never touches the tree. *)
+  Definition tree_kept (b a : fs) : Prop := (forall p, nlook a p = nlook b p) /\ keeps b a.
+
   Definition safe (b a : fs) (op : path) (rmfail : bool) : Prop :=
     match c_outmode cf with
     | OmRegf => first_state b a op \/ second_state b a op rmfail
-    | _ => f_names a = f_names b /\ f_inodes a = f_inodes b
+    | _ => tree_kept b a
     end.
 
   (* after SIGKILL: nothing is lost *)
@@ -219,6 +222,6 @@ Section Effect.
     | OmRegf =>
         input_intact b a op \/
         (exists q, out_name (c_decompress cf) op = Some q /\ output_complete_closed b a op q)
-    | _ => f_names a = f_names b /\ f_inodes a = f_inodes b
+    | _ => tree_kept b a
     end.
 End Effect.
